@@ -486,8 +486,8 @@ fn sweep_file(path: &PathBuf, queries: &[(u16, u16)]) -> String {
     out
 }
 
-fn classify(panic_msg: &str) -> &'static str {
-    let _ = panic_msg;
+/// known-finding class of a panic message: none are open for C16 (both defects were fixed)
+fn classify(_panic_msg: &str) -> &'static str {
     "-"
 }
 
@@ -681,10 +681,6 @@ fn opt_txt(o: Option<usize>) -> String {
         Some(v) => v.to_string(),
         None => "n".into(),
     }
-}
-
-fn group_err(e: &mf::GroupError) -> String {
-    format!("{:?}", e)
 }
 
 fn map_err(e: &mf::Error) -> String {
@@ -1084,11 +1080,13 @@ fn set32(b: &mut [u8], p: usize, v: i32) {
 fn main() {
     let a = Args::parse();
     let th = a.thorough();
-    let o = Out::new(&a, "ser: independent writer (Rust, from doc/datafile.md) vs Model.Datafile.serialize on random item/data sets, v3/v4/crude; \
+    let o = Out::new(&a, "ser: independent writer (Rust, from doc/datafile.md) vs Model.Datafile.serialize_stored on random item/data sets, v3/v4/crude, zlib-compressed or stored blocks; \
 open: writer files (accepted, read back exactly), every 32-bit field of header / type table / offset tables / size table / item headers set to each boundary value \
-(0, +-1, +-small, unaligned, MIN, MAX, 0xffff/0x10000, just past each section end), consistent-but-unaligned item sizes, type-table rewrites, truncation at every position, \
-appended bytes, corrupted / oversized / undersized compressed blocks, random bytes behind a valid prefix, random bytes; each file through raw::Reader (in memory), \
-datafile::Reader::open (temp file) and every map accessor. distinct = (generator, outcome class, version, clipped counts) signatures");
+(0, +-1, +-small, unaligned, MIN, MAX, 0xffff/0x10000, just past each section end), magic variants, consistent-but-unaligned item sizes, type-table rewrites, truncation at every position, \
+appended bytes, corrupted / truncated / oversized / undersized compressed blocks and decompression bombs, random bytes behind a valid prefix, random tables, random bytes; \
+map: map-shaped files (doc/map.md) valid / one field at a boundary / every index, count, version, flag field hostile; each file through raw::Reader::new on memory (compared with the model), \
+datafile::Reader::open on a temp file (must equal the in-memory result) and every libtw2-map accessor (compared with the model). \
+distinct = (generator, outcome class, version, clipped counts) and (map accessor outcome shape) signatures");
     let tmp = a.out.join("tmp");
     std::fs::create_dir_all(&tmp).unwrap();
     let _ = guard(|| ());
@@ -1138,7 +1136,7 @@ datafile::Reader::open (temp file) and every map accessor. distinct = (generator
     }
 
     // ---- single-field corruption with every boundary value
-    for (bi, (_s, b, lay)) in bases.iter().enumerate() {
+    for (_s, b, lay) in bases.iter() {
         for &(class, p) in &lay.fields {
             let orig = le32(b, p);
             let vals = boundary_values(orig, lay, b.len());
@@ -1155,7 +1153,7 @@ datafile::Reader::open (temp file) and every map accessor. distinct = (generator
             do_open(&mut c, &m, None, &mut r, "magic");
         }
         // truncation at every position, and a few appended bytes
-        let step = if th || bi < 3 { 1 } else { 3 };
+        let step = 1;
         let mut k = 0;
         while k < b.len() {
             do_open(&mut c, &b[..k], None, &mut r, "truncate");
@@ -1167,6 +1165,8 @@ datafile::Reader::open (temp file) and every map accessor. distinct = (generator
             do_open(&mut c, &m, None, &mut r, "append");
         }
     }
+
+    c.o.exhaustive(&format!("every 32-bit field x every boundary value, and truncation at every position, of {} base files", bases.len()));
 
     // ---- consistent but odd structures (several fields changed together)
     for _ in 0..(if th { 3000 } else { 400 }) {
